@@ -15,14 +15,14 @@ NOT_APPLICABLE = {}
 reg("C02", level="exploration", overlay="plain",
     technique="exhaustive enumeration of multisets x fault placements x permutations over a boundary alphabet, oracle in math/big",
     level_text="Exhaustive over the stated finite input space (all multisets/fault placements/orderings over a boundary-dense alphabet up to n=7 quick, n=10 thorough): containment, midpoint exactness up to rounding, permutation invariance, slice-only-reordered and timestamp selection are checked on every element; no sampling. Right level because the functions are pure and depend on values only through comparisons and one subtraction, so boundary alphabets exercise every branch and every overflow edge.",
-    budget={"quick": 120, "thorough": 1500}, workers={"quick": 8, "thorough": 16},
+    budget={"quick": 600, "thorough": 1500}, workers={"quick": 8, "thorough": 16},
     assumptions=["offset alphabet is boundary-dense, not all of int64: {0,+-1,2,+-3,+-2^61,+-(2^62-1)} plus MinInt64/MaxInt64 for faulty entries",
                  "n <= 7 (quick) / 10 (thorough) for containment, n <= 7 / 8 for full permutation enumeration"])
 
 reg("C09", level="exploration", overlay="world",
     technique="exhaustive enumeration of the datagram space against the real receive loop over an in-memory network",
     level_text="The real runIPServer and runSCIONServer loops (unmodified apart from the net/unix import paths) receive every datagram of the stated finite space; after each one the number, destination and header of the datagrams it wrote are compared with the statement's predicate. Exhaustive over the space, no sampling.",
-    budget={"quick": 120, "thorough": 600}, workers={"quick": 8, "thorough": 8},
+    budget={"quick": 600, "thorough": 600}, workers={"quick": 8, "thorough": 8},
     assumptions=["header bytes 1..47 take four patterns, not all values (the request predicate reads only byte 0)",
                  "trailing data is zeros/0xff/constant or a project-encoded NTS request (optionally with one flipped bit)",
                  "kernel socket behaviour is emulated by shim/vnet + shim/vunix"])
@@ -30,7 +30,7 @@ reg("C09", level="exploration", overlay="world",
 reg("C06", level="model_checking", overlay="world",
     technique="stateless depth-first exploration of operation histories (deviation-bounded) on the real handler, step-relation oracle against the store's pre-state",
     level_text="Every history inside the stated bounds is executed on the real handleRequest/updateTXTimestamp (through verif hooks) and every transition is judged against the statement using the store's own pre-state; states/transitions are counted, traces are implementation runs.",
-    budget={"quick": 150, "thorough": 1500}, workers={"quick": 16, "thorough": 16},
+    budget={"quick": 600, "thorough": 1500}, workers={"quick": 16, "thorough": 16},
     variants=[{"name": "main"}, {"name": "listener", "args": ["-vmode", "listener"]}],
     assumptions=["timestamps stay inside one NTP era", "alphabets are relative (collide / +1ns / +1s / -1s / other client's value), not all of int64",
                  "the kernel transmit timestamp is an input of updateTXTimestamp in the handler-level layer; the listener-level layer runs runIPServer with an emulated error queue"])
@@ -38,7 +38,7 @@ reg("C06", level="model_checking", overlay="world",
 reg("C07", level="model_checking", overlay="plain",
     technique="exhaustive small-capacity histories (tssCap re-valued to 3 via overlay) with canonical-state pruning + run against the shipped capacity + preemption-bounded lock-level schedules + free-running race-detector pass",
     level_text="Structural invariants (map/heap agreement, back-pointers, heap order, key vs newest exchange, bounds) and the eviction rule are evaluated on every transition of all histories inside the bound on the real code; schedules of concurrent handlers are enumerated at lock level and compared with all sequential merges; data races are sought by a separate free-running -race pass.",
-    budget={"quick": 150, "thorough": 1500}, workers={"quick": 16, "thorough": 16},
+    budget={"quick": 600, "thorough": 1500}, workers={"quick": 16, "thorough": 16},
     variants=[{"name": "cap3", "overlay": "world", "overlay_extra": "tsscap=3"},
               {"name": "realcap", "overlay": "plain", "workers": 3},
               {"name": "sched", "overlay": "sched", "args": ["-vmode", "sched"]},
@@ -51,38 +51,38 @@ reg("C07", level="model_checking", overlay="plain",
 reg("C04", level="exploration", overlay="plain",
     technique="exhaustive enumeration of the sub-second range and a boundary-dense seconds grid, exact oracle on time.Time",
     level_text="Time64FromTime/TimeFromTime64 are evaluated on all 10^9 nanosecond values, on all (thorough) 2^32 fractions and on a seconds grid that contains every era boundary up to 2308 with all 2^16 neighbouring offsets and both window edges; the seconds and fraction computations are independent in the code, and the cross product is taken on the boundary sets. Exhaustive over that space.",
-    budget={"quick": 120, "thorough": 1500}, workers={"quick": 16, "thorough": 16},
+    budget={"quick": 600, "thorough": 1500}, workers={"quick": 16, "thorough": 16},
     assumptions=["seconds offsets are boundary-dense, not all 2^32 per reference", "reference times up to 2^33 s after 1900"])
 
 reg("C18", level="exploration", overlay="plain",
     technique="exhaustive enumeration of residues / kernel ppm range / 16-bit field slices with math/big oracles",
     level_text="Every function is evaluated on a space that is complete in the dimension its arithmetic branches on (all 10^9 remainders, all 65 536 001 scaled-ppm values, all values of each 16-bit slice of the 48-bit seconds, all 2^16 low words of a correction field) and boundary-dense elsewhere; results are compared with arbitrary-precision arithmetic.",
-    budget={"quick": 120, "thorough": 900}, workers={"quick": 16, "thorough": 16},
+    budget={"quick": 600, "thorough": 900}, workers={"quick": 16, "thorough": 16},
     assumptions=["quotients / high words are boundary sets, not all values", "Drift is checked on driver/clocks.SystemClock (no syscalls are made by Drift)"])
 
 reg("C14", level="exploration", overlay="plain",
     technique="exhaustive byte-level and shape-level enumeration of encodings; exhaustive stream segmentations through a scripted io.Reader",
     level_text="Round trips are checked on every value of every byte (and byte pair) of the fixed-layout codecs, on every NTS packet shape that fits the packet size, and on every segmentation (all cuts, all pairs of cuts, all 2^17 segmentations of a short stream) of NTS-KE record streams. Exhaustive over that space.",
-    budget={"quick": 120, "thorough": 900}, workers={"quick": 1, "thorough": 1},
+    budget={"quick": 600, "thorough": 900}, workers={"quick": 1, "thorough": 1},
     assumptions=["fields wider than 16 bits are exercised through every byte and adjacent byte pair on three base patterns, not through all values",
                  "padding bytes written by the NTS encoder are zero (checked) and ignored by the comparison"])
 
 reg("C19", level="model_checking", overlay="plain",
     technique="stateless exploration of update histories on the real Pll against a reference phase machine, scripted clock",
     level_text="Every update history inside the bounds runs on the real adjustments.Pll with a scripted clock recording Step/Adjust; after every update the actuation is compared with a four-phase reference machine written from the statement (when a Step is due and with what value, slew limit, duration, finiteness, restart on epoch change).",
-    budget={"quick": 120, "thorough": 900}, workers={"quick": 16, "thorough": 16},
+    budget={"quick": 600, "thorough": 900}, workers={"quick": 16, "thorough": 16},
     assumptions=["offset MinInt64 is outside the alphabet (the double negation saturates; documented in DESIGN.md)", "clock readings are non-decreasing"])
 
 reg("C17", level="model_checking", overlay="plain",
     technique="exhaustive enumeration of sample histories against a reference model (lucky packet) and a differential fresh-filter oracle (Ntimed)",
     level_text="All histories inside the bounds are run on the real filters; the lucky-packet output is compared with a 10-line reference model after every sample, the Ntimed filter with the statement's raw-output rules (using the bounds the filter itself reports) and with a fresh filter after every reset / epoch change.",
-    budget={"quick": 120, "thorough": 900}, workers={"quick": 16, "thorough": 16},
+    budget={"quick": 600, "thorough": 900}, workers={"quick": 16, "thorough": 16},
     assumptions=["round-trip delays within a window are pairwise distinct (as the statement requires)", "Ntimed learned bounds are observed through the filter's own debug log record", "float tolerance 2 ns"])
 
 reg("C12", level="model_checking", overlay="plain",
     technique="stateless exploration of call/time histories in synctest virtual time with canonical-state pruning, reference key list; lock-level schedules; free-running race pass",
     level_text="The real Provider runs under the bubble's virtual clock; every history inside the bounds is executed and after every step Current and Get (on every identifier ever issued and on unissued ones) are compared with a reference list of (id, generation time, last issue). Concurrency: all lock-level interleavings of 2-3 threads within the preemption bound are compared with the sequential model, and a separate free-running -race pass looks for unsynchronised accesses.",
-    budget={"quick": 120, "thorough": 900}, workers={"quick": 16, "thorough": 16},
+    budget={"quick": 600, "thorough": 900}, workers={"quick": 16, "thorough": 16},
     variants=[{"name": "main"}, {"name": "sched", "overlay": "sched", "args": ["-vmode", "sched"]},
               {"name": "race", "race": True, "workers": 1, "args": ["-vmode", "race"]}],
     assumptions=["time advances in steps from a 13-value alphabet around the thresholds", "crypto/rand is a deterministic counter stream"])
@@ -90,7 +90,7 @@ reg("C12", level="model_checking", overlay="plain",
 reg("C16", level="model_checking", overlay="plain",
     technique="exhaustive enumeration of event orders in synctest virtual time (one event per big step), lock-free guard under all CAS interleavings, free-running race pass",
     level_text="MeasureClockOffsets runs in a bubble; clock callbacks are parked harness functions, so the explorer decides the total order of clock returns and the cancellation and checks return timing, result slice and goroutine quiescence on every order; the in-progress guard is explored under all interleavings of its compare-and-swap operations with the cooperative scheduler.",
-    budget={"quick": 120, "thorough": 900}, workers={"quick": 16, "thorough": 16},
+    budget={"quick": 600, "thorough": 900}, workers={"quick": 16, "thorough": 16},
     variants=[{"name": "main"}, {"name": "sched", "overlay": "sched", "args": ["-vmode", "sched"], "workers": 1},
               {"name": "race", "race": True, "workers": 1, "args": ["-vmode", "race"]}],
     assumptions=["simultaneously ready events are equivalent to one of their sequential orders (reduction argument in DESIGN.md section 3)"])
@@ -98,46 +98,46 @@ reg("C16", level="model_checking", overlay="plain",
 reg("C01", level="model_checking", overlay="plain",
     technique="stateless exploration of multi-round source histories on the real sync.Run loop in synctest virtual time, reference model for clean rounds",
     level_text="sync.Run itself (context timeouts, collector goroutines, clamps, midpoint) runs in a bubble against scripted sources and a recording discipline; every history inside the bounds is executed and each round is held to exactly-one-correction, the applicable cap, and - where every source answered in time - a reference model of the statement.",
-    budget={"quick": 150, "thorough": 1200}, workers={"quick": 16, "thorough": 16},
+    budget={"quick": 600, "thorough": 1200}, workers={"quick": 16, "thorough": 16},
     assumptions=["rounds after a failed or late source are held to the bound and the exactly-once rule only (the statement does not determine which stale slot values are aggregated)",
                  "group aggregates of the model use the repository's own FaultTolerantMidpoint (decided separately by C02)"])
 
 reg("C03", level="model_checking", overlay="world",
     technique="stateless deviation-bounded exploration of network/clock behaviours around the real client (and real listener) over an in-memory network, ground-truth oracle",
     level_text="The real IPClient/SCIONClient code (request construction, interleaved state machine, receive loop, timestamp extraction) runs in a bubble over vnet; the explorer enumerates every combination of loss, duplication, staleness, delays, server clock steps, port reuse and timestamp availability inside the deviation bound, and each accepted measurement is matched against the harness's ground-truth log of exchanges.",
-    budget={"quick": 150, "thorough": 1200}, workers={"quick": 16, "thorough": 16},
+    budget={"quick": 600, "thorough": 1200}, workers={"quick": 16, "thorough": 16},
     assumptions=["clock readings are strictly increasing (1 ns per reading)", "a kernel transmit timestamp is 2 us later than the sender's preceding clock reading (never equal to it)", "delays and offsets come from small alphabets; the inequality is scale-free",
                  "hardware timestamping (iface != \"\") is not modelled"])
 
 reg("C05", level="model_checking", overlay="world",
     technique="exhaustive enumeration of crafted-datagram sequences against the real client over an in-memory network, acceptance-predicate oracle",
     level_text="Every ordered pair of datagrams from the mutation catalogue is injected for the outstanding basic and interleaved request of the real client; a reported measurement is accepted by the oracle only if the datagram it was computed from satisfies the predicate written from the statement (fault enumeration flavour of model checking: states = distinct (accepted?, consumed) classes).",
-    budget={"quick": 150, "thorough": 1200}, workers={"quick": 16, "thorough": 16},
+    budget={"quick": 600, "thorough": 1200}, workers={"quick": 16, "thorough": 16},
     assumptions=["mutations are single-field; arbitrary byte strings are covered by C08's grammars", "NTS and SCION variants are separate scenarios of this check"])
 
 reg("C20", level="model_checking", overlay="world",
     technique="exhaustive enumeration of scripted-peer behaviours and call histories around the real Fetcher with real TLS 1.3 handshakes over in-memory streams",
     level_text="The real Fetcher/dialTLS/ReadData/ExportKeys code performs a complete TLS 1.3 handshake with a scripted peer inside a bubble for every script of the grammar and every history of scripts inside the bound; success/failure is compared with the statement's predicate evaluated on the script, keys with the peer's own exporter values, the pool with the cookies sent, and the state after a failure with 'nothing left'.",
-    budget={"quick": 150, "thorough": 1200}, workers={"quick": 16, "thorough": 16},
+    budget={"quick": 600, "thorough": 1200}, workers={"quick": 16, "thorough": 16},
     assumptions=["TLS certificate verification and the TLS 1.3 minimum are outside the property", "QUIC/SCION transport of the same exchange is not executed (it shares ReadData/ExportKeys)",
                  "scripts deviate from the valid exchange in one place"])
 
 reg("C11", level="model_checking", overlay="world",
     technique="stateless deviation-bounded exploration of loss/time histories around the real NTS client, listener, key-exchange handler and key provider in one bubble; wire-level oracle",
     level_text="Client pool accounting, request construction at every pool level, server cookie replenishment and key rotation all run as shipped (real TLS key exchange, real AEAD) inside a bubble; the explorer enumerates loss runs and day-scale time steps inside the bound and judges every request and reply on the wire.",
-    budget={"quick": 150, "thorough": 1200}, workers={"quick": 16, "thorough": 16},
+    budget={"quick": 600, "thorough": 1200}, workers={"quick": 16, "thorough": 16},
     assumptions=["over SCION the NTS-protected exchange runs through the real SCIONClient and runSCIONServer; the key exchange itself uses the TLS transport (QUIC is outside the explored system)", "cookies are the 124-byte cookies the project's servers issue"])
 
 reg("C10", level="exploration", overlay="world",
     technique="exhaustive single-bit / field / truncation / key mutation of every encoded NTS request, response and cookie, judged by the real listener and client functions",
     level_text="For every packet the project's encoder emits at pool levels 2..8 (requests), 1..7 cookies (responses) and for sealed cookies, all single-bit flips, all type/length field values from the alphabet, all truncations and key/identifier swaps are enumerated; requests are judged by the real listener (reply or not), responses and cookies by the real functions. Exhaustive over that mutation space.",
-    budget={"quick": 150, "thorough": 600}, workers={"quick": 8, "thorough": 8},
+    budget={"quick": 600, "thorough": 600}, workers={"quick": 8, "thorough": 8},
     assumptions=["mutations are single-site", "the authenticator field's own type/length header is not covered by the AEAD and is excluded from the must-reject region (a changed type is still rejected, checked by construction)"])
 
 reg("C13", level="exploration", overlay="world",
     technique="exhaustive product of crafted SCION packets (SCION library builders) against the real SCION listener loops over an in-memory network, replies parsed with the library",
     level_text="Every packet of the stated product is handled by the real runSCIONServer (gopacket parsing, authenticator check with keys from the library's DRKey derivation, path reversal, forwarding) and the datagrams it writes are compared with the statement: who is served, where the reply goes, reversed path, swapped addresses and ports, authenticator on the reply, forwarding condition. Exhaustive over the product and over all single-bit flips of a verified request.",
-    budget={"quick": 150, "thorough": 900}, workers={"quick": 2, "thorough": 2},
+    budget={"quick": 600, "thorough": 900}, workers={"quick": 2, "thorough": 2},
     variants=[{"name": "main"}, {"name": "mockkeys", "env": {"USE_MOCK_KEYS": "true"}}],
     assumptions=["DRKeys come from a fake daemon using the library's own derivation (variant mockkeys: the project's USE_MOCK_KEYS switch); a real DRKey service is not available",
                  "hop-field MACs are not validated by an end host and are arbitrary here"])
@@ -145,7 +145,7 @@ reg("C13", level="exploration", overlay="world",
 reg("C08", level="fault_enumeration", overlay="world",
     technique="exhaustive enumeration of a finite structure-aware mutation space against every real receive loop, handler and client over an in-memory network, sentinel after each input",
     level_text="Totality over all byte strings cannot be enumerated; decided here is totality over a stated finite mutation space (every truncation / byte value / 16-bit field of every valid message of every protocol, plus small TLV grammars), fed to the real listeners, the NTS-KE handler behind a real TLS session, the real clients and the decoders. A panic, a receive loop that does not return to its read, an unanswered sentinel or a client call that does not return is a violation.",
-    budget={"quick": 240, "thorough": 1800}, workers={"quick": 13, "thorough": 13},
+    budget={"quick": 600, "thorough": 1800}, workers={"quick": 13, "thorough": 13},
     variants=[{"name": "main"}, {"name": "mockkeys", "env": {"USE_MOCK_KEYS": "true"}, "args": ["-vtarget", "listeners"], "workers": 6}],
     assumptions=["arbitrary multi-site garbage beyond the grammars is not covered", "the QUIC listener (real quic-go transport) is outside the explored system",
                  "resource exhaustion (unbounded cookie records in one NTS-KE message) is not covered", "a 60 s real-time watchdog detects spinning loops"])
@@ -153,6 +153,6 @@ reg("C08", level="fault_enumeration", overlay="world",
 reg("C15", level="model_checking", overlay="world", gomaxprocs=1,
     technique="deviation-bounded exploration of path sets / client states / random outcomes / completion orders around the real multipath measurement; exhaustive enumeration of the random primitives through a scripted crypto/rand.Reader",
     level_text="Part 1 runs MeasureClockOffsetSCION with real clients and the real listener in a bubble and judges path assignment (observed per next hop on the wire), stickiness/reset and the combined result on every execution inside the bound. Part 2 feeds all 2^32 words to RandIntn and all outcome sequences to Sample and checks uniformity by counting.",
-    budget={"quick": 200, "thorough": 1500}, workers={"quick": 16, "thorough": 16},
+    budget={"quick": 600, "thorough": 1500}, workers={"quick": 16, "thorough": 16},
     variants=[{"name": "main"}, {"name": "uniform", "args": ["-vmode", "uniform"]}],
     assumptions=["a client is identified on the wire by a distinct DSCP value, a path by its underlay next hop", "RandIntn is enumerated for n in {2,3} (quick) / 2..16 (thorough), Sample for n <= 6 (7)"])
